@@ -44,7 +44,38 @@ def _all_guard_atoms(fn):
     """Atoms of every raise-guard, including those whose comparison sits in a
     generator expression (names bound by the generator are resolved by the
     caller through local_defs, which includes comprehension targets)."""
-    return raise_guards(fn.node)
+    out = list(raise_guards(fn.node))
+    # guards that sit in a local helper called as a statement
+    # (`self._check(x, n)`): the helper's fall-through atoms with its
+    # parameters replaced by the call's arguments
+    from .dataflow import _Subst
+    import copy as _cp
+    for st in stmts_of(fn.node):
+        if not (isinstance(st, ast.Expr) and isinstance(st.value, ast.Call)):
+            continue
+        call = st.value
+        h = resolve_local_call(fn, call)
+        if h is None or h is fn:
+            continue
+        hp = list(h.params)
+        if hp and hp[0] in ("self", "cls") and isinstance(call.func,
+                                                          ast.Attribute):
+            hp = hp[1:]
+        if len(call.args) > len(hp) or any(isinstance(a, ast.Starred)
+                                           for a in call.args):
+            continue
+        table = dict(zip(hp, call.args))
+        for k in call.keywords:
+            if k.arg in hp:
+                table[k.arg] = k.value
+        for g, atoms in raise_guards(h.node):
+            new_atoms = []
+            for a in atoms:
+                l = _Subst(table).visit(_cp.deepcopy(a.left))
+                r = _Subst(table).visit(_cp.deepcopy(a.right))
+                new_atoms.append(Atom(l, a.op, r, a.node))
+            out.append((st, new_atoms))
+    return out
 
 
 # ---------------------------------------------------------------------
@@ -158,17 +189,18 @@ def strict_mesh_bound(repo, col):
         return False
 
     def is_uint32_fmt(call):
-        return any(isinstance(a, ast.Constant) and a.value in ("<I", "I", "<u4")
-                   for a in call.args) or any(
-            isinstance(k.value, ast.Constant) and k.value.value in ("<I", "<u4")
-            for k in call.keywords)
+        vals = list(call.args) + [k.value for k in call.keywords]
+        return any(isinstance(a, ast.Constant) and
+                   a.value in ("<I", "I", "<u4", "uint32")
+                   for a in vals) or any(
+            norm(a) in ("np.uint32", "numpy.uint32") for a in vals)
 
     count_names, index_names = set(), set()
     for name, ds in defs.items():
         for d in ds:
             if d.value is None:
                 continue
-            if from_call(d.value, "struct.unpack") or \
+            if from_call(d.value, ".unpack") or \
                     from_call(d.value, "unpack_from"):
                 count_names.add(name)
             if from_call(d.value, "frombuffer", is_uint32_fmt):
@@ -185,8 +217,11 @@ def strict_mesh_bound(repo, col):
                     changed = True
     index_names -= count_names
     if not count_names or not index_names:
-        raise AnalysisError("mesh reader anchors vanished (vertex count from "
-                            "struct.unpack / uint32 frombuffer)")
+        col.add(rule, fn, "triangles < num_vertices", True,
+                "vertex count (struct unpack) or triangle indices (uint32 "
+                "frombuffer) not recognised in the mesh reader",
+                undecided=True)
+        return
     found = []
     for st, atoms in _all_guard_atoms(fn):
         for a in atoms:
@@ -377,6 +412,20 @@ def cmc_lattice(repo, col):
             for k, t in enumerate(n.target.elts):
                 if isinstance(t, ast.Name):
                     zips[t.id] = (k, n.iter)
+    # `for a, b in ((x0, c0), (x1, c1), ...)`: name -> (position, pairs)
+    pairs = {}
+    for n in walk_local(fn.node):
+        if isinstance(n, (ast.For, ast.comprehension)) and \
+                isinstance(n.target, ast.Tuple):
+            it = n.iter
+            if isinstance(it, ast.Name) and it.id in table:
+                it = table[it.id]
+            if isinstance(it, (ast.Tuple, ast.List)) and it.elts and all(
+                    isinstance(e, (ast.Tuple, ast.List)) and
+                    len(e.elts) == len(n.target.elts) for e in it.elts):
+                for k, t in enumerate(n.target.elts):
+                    if isinstance(t, ast.Name):
+                        pairs[t.id] = (k, it)
     for st, atoms in guards:
         for a in atoms:
             if not (isinstance(a.left, ast.BinOp) and
@@ -385,6 +434,12 @@ def cmc_lattice(repo, col):
                 continue
             L, R = a.left.left, a.left.right
             if isinstance(L, ast.Name) and isinstance(R, ast.Name) and \
+                    L.id in pairs and R.id in pairs and \
+                    pairs[L.id][1] is pairs[R.id][1]:
+                it = pairs[L.id][1]
+                covered |= {(norm(e.elts[pairs[L.id][0]]),
+                             norm(e.elts[pairs[R.id][0]])) for e in it.elts}
+            elif isinstance(L, ast.Name) and isinstance(R, ast.Name) and \
                     L.id in zips and R.id in zips and \
                     zips[L.id][1] is zips[R.id][1]:
                 z = zips[L.id][1]
@@ -412,10 +467,10 @@ def cmc_lattice(repo, col):
         lo, c = comp[2 * ax], cs[ax]
         want.append({"int(%s / %s)" % (lo, c), "%s // %s" % (lo, c),
                      "int(%s // %s)" % (lo, c)})
-    for name, ds in defs.items():
-        for d in ds:
-            v = d.value
-            if isinstance(v, (ast.List, ast.Tuple)) and len(v.elts) == 3:
+    for v in walk_local(fn.node):
+        if True:
+            if isinstance(v, (ast.List, ast.Tuple)) and len(v.elts) == 3 and \
+                    isinstance(getattr(v, "ctx", None), ast.Load):
                 texts = [norm(e) for e in v.elts]
                 if any("/" in t for t in texts):
                     recognisable = True
